@@ -153,6 +153,12 @@ def gen_ola(run):
                 for hop_given in ((True, False) if hop == size else (True,)):
                   cont = CONT[(size + hop + m) % len(CONT)] if size_given else ["list", "tuple", "deque"][(size + m) % 3]
                   yield (size, hop, m, wk, wv, normalize, size_given, hop_given, cont)
+  # many blocks, large sizes (beyond any internal batch / buffer)
+  for size, hop, m in ((16, 4, 40), (64, 16, 12), (100, 33, 8), (128, 128, 5), (33, 1, 70)):
+    for wk in ("none", "list", "callable"):
+      for normalize in (True, False):
+        for size_given in (True, False):
+          yield (size, hop, m, wk, "ramp", normalize, size_given, True, "list")
 
 
 def run_ola(case):
